@@ -25,7 +25,10 @@ From LW Require Import Base.Outcome.
 Import ListNotations.
 Open Scope Z_scope.
 
-Definition wrap64 (z : Z) : Z := (z + 2 ^ 63) mod 2 ^ 64 - 2 ^ 63.
+(* 2^63 = 9223372036854775808, 2^64 = 18446744073709551616 (numerals: evaluated often) *)
+Definition wrap64 (z : Z) : Z :=
+  if (-9223372036854775808 <=? z) && (z <=? 9223372036854775807) then z  (* fast path, same value *)
+  else (z + 9223372036854775808) mod 18446744073709551616 - 9223372036854775808.
 
 (* 1 << uint(sf) on int64: shift counts >= 64 (incl. negative sf, which uint() makes huge) give 0 *)
 Definition shl1 (sf : Z) : Z := if (0 <=? sf) && (sf <? 64) then wrap64 (2 ^ sf) else 0.
